@@ -3,6 +3,7 @@ import CookModel.Lemmas.Text
 import CookModel.Lemmas.LexLaws
 import CookModel.Lemmas.Spans
 import CookModel.Lemmas.SpansDoc
+import CookModel.Lemmas.SpansFront
 /-
   C04  Every reported source location is in bounds, on char boundaries, faithful.
 
@@ -208,44 +209,41 @@ example : WFI 0 "ab @é".toList [⟨.at, ['@'], 3⟩, ⟨.word, ['é'], 4⟩] :=
   ⟨by simp, ⟨⟨⟨rfl, by decide, trivial⟩, by intro t ht hk; simp at ht; rcases ht with rfl | rfl <;> simp at hk⟩,
     ⟨"ab ".toList, [], by decide, by decide⟩⟩⟩
 
-/-- **The whole document, every source location** (partial: the front-matter offsets are assumed,
-    `FrontMatterOffsetsOK`: when the input has front matter, the cooklang part is a suffix of the
-    input whose offset is the byte length of what precedes it, and the YAML text is the input
-    slice at its offset; nothing is assumed for an input without front matter).  Every event and
-    diagnostic `PullParser` produces for the input `s` has all its spans inside `s`, on character
-    boundaries of `s`, with `start ≤ end`, and every text fragment equals the input slice at its
-    span. -/
-theorem C04_event_spans_ok_partial {α : Type} [Arith α] (cs : CharSpec) (ext : Ext) (s : List Char)
-    (hfm : FrontMatterOffsetsOK cs s) :
-    ∀ ev ∈ (pullEvents (α := α) cs ext s).1.toList, EvSpansOK 0 s ev := by
-  obtain ⟨b, h⟩ := pullEvents_topInv (α := α) cs ext s hfm
-  exact h.ok
-
-/-- … without any assumption when the input has no front matter -/
-theorem C04_event_spans_ok_no_frontmatter {α : Type} [Arith α] (cs : CharSpec) (ext : Ext) (s : List Char)
-    (hno : parseFrontmatter cs s = none) :
-    ∀ ev ∈ (pullEvents (α := α) cs ext s).1.toList, EvSpansOK 0 s ev :=
-  C04_event_spans_ok_partial cs ext s (frontMatterOffsetsOK_of_none cs s hno)
-
-/-- **Source order** (partial: same assumption on the front-matter offsets): the content events of
-    a document (text, ingredient, cookware, timer, metadata entry, section) have spans that are
-    pairwise ordered — each starts at or after the end of every earlier one.  Inside a step this is
-    the monotonicity of the cursor, across blocks the order of the blocks in the token stream. -/
-theorem C04_events_in_source_order_partial {α : Type} [Arith α] (cs : CharSpec) (ext : Ext) (s : List Char)
-    (hfm : FrontMatterOffsetsOK cs s) : SrcOrdered (pullEvents (α := α) cs ext s).1.toList := by
-  obtain ⟨b, h⟩ := pullEvents_topInv (α := α) cs ext s hfm
-  exact h.ord
-
-theorem C04_events_in_source_order_no_frontmatter {α : Type} [Arith α] (cs : CharSpec) (ext : Ext)
-    (s : List Char) (hno : parseFrontmatter cs s = none) :
-    SrcOrdered (pullEvents (α := α) cs ext s).1.toList :=
-  C04_events_in_source_order_partial cs ext s (frontMatterOffsetsOK_of_none cs s hno)
-
 /-- `SrcOrdered` is not vacuous: two texts in the wrong order are rejected -/
 example : ¬ SrcOrdered [Ev.text (α := Rat) ⟨[⟨['a'], 5, false⟩], 5, false⟩,
     Ev.text ⟨[⟨['b'], 0, false⟩], 0, false⟩] := by
   intro h
   have := (List.pairwise_cons.mp h).1 (Ev.text ⟨[⟨['b'], 0, false⟩], 0, false⟩) (by simp) _ _ rfl rfl
   revert this; decide
+
+/-- The offsets of the front-matter split: when the input has front matter, the cooklang part is a
+    suffix of the input and its offset (the `TokenStream` offset) is the byte length of what
+    precedes it; the YAML text is the input slice at its offset. -/
+theorem C04_frontmatter_offsets_ok (cs : CharSpec) (s : List Char) : FrontMatterOffsetsOK cs s :=
+  frontMatterOffsetsOK cs s
+
+/-- `FrontMatterOffsetsOK` is about something: this input has front matter -/
+example : (parseFrontmatter toyCharSpec "---\n---\nb".toList).isSome = true := by decide
+
+/-- **Every reported source location of a document is in bounds, on character boundaries and
+    faithful**: for every input `s`, every event and diagnostic `PullParser` produces has all its
+    spans — component, modifiers, intermediate reference, quantity, value, scaling lock, the texts
+    (name, alias, note, unit, metadata key and value, section name, front matter) and each of their
+    fragments, and every label of every error and warning — inside `s`, starting and ending on
+    character boundaries of `s`, with `start ≤ end`; and every text fragment's content equals the
+    input slice at its span.  (The recovered timer quantity carries the documented span `(0, 0)`,
+    which is such a span of the document.) -/
+theorem C04_event_spans_ok {α : Type} [Arith α] (cs : CharSpec) (ext : Ext) (s : List Char) :
+    ∀ ev ∈ (pullEvents (α := α) cs ext s).1.toList, EvSpansOK 0 s ev := by
+  obtain ⟨b, h⟩ := pullEvents_topInv (α := α) cs ext s (frontMatterOffsetsOK cs s)
+  exact h.ok
+
+/-- **The events of a document appear in source order without overlapping**: the spans of the
+    content events (text, ingredient, cookware, timer, metadata entry, section) are pairwise
+    ordered, each starting at or after the end of every earlier one. -/
+theorem C04_events_in_source_order {α : Type} [Arith α] (cs : CharSpec) (ext : Ext) (s : List Char) :
+    SrcOrdered (pullEvents (α := α) cs ext s).1.toList := by
+  obtain ⟨b, h⟩ := pullEvents_topInv (α := α) cs ext s (frontMatterOffsetsOK cs s)
+  exact h.ord
 
 end Cook
